@@ -8,9 +8,15 @@
 //   PDU  ::= (cr V SESS) | (p4 V FLAGS LEN ML x<8hex> ASN) | (p6 V FLAGS LEN ML x<32hex> ASN)
 //          | (eod V SESS SERIAL) | (notify V SESS SERIAL) | (creset V) | (err V CODE x<body>)
 //          | (raw V TYPE SESS x<body>) | (junk x<bytes>)
-//   STEP ::= (start SID) | (send SID N) | (soft SID) | (end SID eof|cancel) | (snap)
+//          | (case-tcp-reset N)
+//   STEP ::= (start SID) | (send SID N) | (sendq SID N) | (soft SID) | (wfail SID)
+//          | (end SID eof|cancel) | (snap)
+//          sendq = queue bytes without running the client (must be followed by (end SID eof));
+//          wfail = every later write of the client fails
 //   obs  ::= (obs SNAP*)
-//   SNAP ::= (snap (roas (CACHE NET ML ASN)*) (sess (SID SERIAL SESSID (Q*))*) (done SID*))
+//   SNAP ::= (snap (roas (SID CACHE NET ML ASN)*) (sess (SID SERIAL SESSID RX (Q*))*) (done SID*))
+//          a ROA row is labelled with the session whose Arc<IpAddr> it carries (999 = none);
+//          RX = sum of the RpkiState receive counters
 //   Q    ::= reset | (serial SESS SERIAL)
 #![allow(dead_code, unused_imports)]
 
@@ -29,7 +35,11 @@ use tokio::io::{AsyncReadExt, AsyncWriteExt};
 mod sexp;
 use sexp::Term;
 
+use crate::api;
 use crate::table_manager::TableManager;
+
+#[path = "/verif/harness/daemon/rpki_c12.rs"]
+mod c12;
 
 struct Flag(AtomicBool);
 impl Wake for Flag {
@@ -38,7 +48,41 @@ impl Wake for Flag {
     }
 }
 
+/// duplex end whose writes can be made to fail
+struct FaultIo {
+    inner: tokio::io::DuplexStream,
+    fail: Arc<AtomicBool>,
+}
+impl tokio::io::AsyncRead for FaultIo {
+    fn poll_read(
+        mut self: Pin<&mut Self>,
+        cx: &mut Context<'_>,
+        buf: &mut tokio::io::ReadBuf<'_>,
+    ) -> Poll<std::io::Result<()>> {
+        Pin::new(&mut self.inner).poll_read(cx, buf)
+    }
+}
+impl tokio::io::AsyncWrite for FaultIo {
+    fn poll_write(mut self: Pin<&mut Self>, cx: &mut Context<'_>, buf: &[u8]) -> Poll<std::io::Result<usize>> {
+        if self.fail.load(Ordering::SeqCst) {
+            return Poll::Ready(Err(std::io::Error::new(std::io::ErrorKind::BrokenPipe, "injected")));
+        }
+        Pin::new(&mut self.inner).poll_write(cx, buf)
+    }
+    fn poll_flush(mut self: Pin<&mut Self>, cx: &mut Context<'_>) -> Poll<std::io::Result<()>> {
+        if self.fail.load(Ordering::SeqCst) {
+            return Poll::Ready(Err(std::io::Error::new(std::io::ErrorKind::BrokenPipe, "injected")));
+        }
+        Pin::new(&mut self.inner).poll_flush(cx)
+    }
+    fn poll_shutdown(mut self: Pin<&mut Self>, cx: &mut Context<'_>) -> Poll<std::io::Result<()>> {
+        Pin::new(&mut self.inner).poll_shutdown(cx)
+    }
+}
+
 struct Sess {
+    remote: Option<Arc<IpAddr>>,
+    wfail: Arc<AtomicBool>,
     cache: u8,
     stream: Vec<u8>,
     pos: usize,
@@ -196,11 +240,27 @@ fn cache_of(a: &IpAddr) -> u64 {
     }
 }
 
+fn rx_of(st: &RpkiState) -> u64 {
+    (st.received_ipv4.load(Ordering::Relaxed)
+        + st.received_ipv6.load(Ordering::Relaxed)
+        + st.serial_notify.load(Ordering::Relaxed)
+        + st.cache_reset.load(Ordering::Relaxed)
+        + st.cache_response.load(Ordering::Relaxed)
+        + st.end_of_data.load(Ordering::Relaxed)
+        + st.error.load(Ordering::Relaxed)) as u64
+}
+
 fn snapshot(tables: &TableHandle, sess: &BTreeMap<u64, Sess>) -> Term {
     let mut roas = Vec::new();
     for fam in [packet::Family::IPV4, packet::Family::IPV6] {
         for (net, roa) in tables.collect_roa(fam) {
+            let owner = sess
+                .iter()
+                .find(|(_, s)| s.remote.as_ref().is_some_and(|a| Arc::ptr_eq(a, &roa.source)))
+                .map(|(sid, _)| *sid)
+                .unwrap_or(999);
             roas.push(Term::list(vec![
+                Term::nat(owner),
                 Term::nat(cache_of(&roa.source)),
                 net_term(&net),
                 Term::nat(roa.max_length),
@@ -218,6 +278,7 @@ fn snapshot(tables: &TableHandle, sess: &BTreeMap<u64, Sess>) -> Term {
             Term::nat(*sid),
             Term::nat(s.state.serial.load(Ordering::Relaxed)),
             Term::nat(s.state.session_id.load(Ordering::Relaxed)),
+            Term::nat(rx_of(&s.state)),
             Term::list(s.queries()),
         ]));
         if s.done {
@@ -236,6 +297,15 @@ fn run_case(line: &str) -> String {
         }
         return match u(&a[0], 64) {
             Some(n) => run_tcp(n),
+            None => bad(),
+        };
+    }
+    if let Some(a) = t.tagged("case-tcp-reset") {
+        if a.len() != 1 {
+            return bad();
+        }
+        return match u(&a[0], 64) {
+            Some(n) => run_tcp_reset(n),
             None => bad(),
         };
     }
@@ -264,6 +334,8 @@ fn run_case(line: &str) -> String {
         sess.insert(
             sid,
             Sess {
+                remote: None,
+                wfail: Arc::new(AtomicBool::new(false)),
                 cache: cache as u8,
                 stream,
                 pos: 0,
@@ -282,7 +354,9 @@ fn run_case(line: &str) -> String {
     enum Step {
         Start(u64),
         Send(u64, usize),
+        SendQ(u64, usize),
         Soft(u64),
+        WFail(u64),
         End(u64, bool),
         Snap,
     }
@@ -314,7 +388,12 @@ fn run_case(line: &str) -> String {
                 let Some(n) = u(&a[1], 1 << 20) else { return bad() };
                 plan.push(Step::Send(sid, n as usize));
             }
+            ("sendq", 2) if started.contains(&sid) => {
+                let Some(n) = u(&a[1], 1 << 20) else { return bad() };
+                plan.push(Step::SendQ(sid, n as usize));
+            }
             ("soft", 1) if started.contains(&sid) => plan.push(Step::Soft(sid)),
+            ("wfail", 1) if started.contains(&sid) => plan.push(Step::WFail(sid)),
             ("end", 2) if started.contains(&sid) => match a[1].as_atom() {
                 Some("eof") => plan.push(Step::End(sid, true)),
                 Some("cancel") => plan.push(Step::End(sid, false)),
@@ -323,6 +402,18 @@ fn run_case(line: &str) -> String {
             _ => return bad(),
         }
     }
+    // a queued send must be followed at once by the end of the stream
+    for i in 0..plan.len() {
+        if let Step::SendQ(sid, _) = plan[i] {
+            match plan.get(i + 1) {
+                Some(Step::End(s2, true)) if *s2 == sid => {}
+                _ => return bad(),
+            }
+        }
+    }
+    // timers created by the client (none today) must find a runtime context
+    let rt = tokio::runtime::Builder::new_current_thread().enable_all().build().unwrap();
+    let _guard = rt.enter();
     let mut obs = vec![Term::atom("obs")];
     for st in plan {
         match st {
@@ -330,6 +421,8 @@ fn run_case(line: &str) -> String {
                 let s = sess.get_mut(&sid).unwrap();
                 let (client_io, server_io) = tokio::io::duplex(1 << 22);
                 let remote_addr = Arc::new(IpAddr::V4(Ipv4Addr::new(192, 0, 2, s.cache)));
+                let client_io = FaultIo { inner: client_io, fail: s.wfail.clone() };
+                s.remote = Some(remote_addr.clone());
                 let framed = Framed::new(client_io, rpki::RtrCodec::new());
                 s.fut = Some(Box::pin(RpkiClient::serve_inner(
                     framed,
@@ -353,16 +446,33 @@ fn run_case(line: &str) -> String {
                 }
                 s.drive();
             }
+            Step::SendQ(sid, n) => {
+                let s = sess.get_mut(&sid).unwrap();
+                let end = (s.pos + n).min(s.stream.len());
+                let chunk = s.stream[s.pos..end].to_vec();
+                s.pos = end;
+                if let Some(srv) = s.server.as_mut() {
+                    let _ = srv.write_all(&chunk).now_or_never();
+                }
+            }
             Step::Soft(sid) => {
                 let s = sess.get_mut(&sid).unwrap();
                 s.soft.notify_one();
                 s.drive();
             }
+            Step::WFail(sid) => {
+                let s = sess.get_mut(&sid).unwrap();
+                s.drain();
+                s.wfail.store(true, Ordering::SeqCst);
+            }
             Step::End(sid, eof) => {
                 let s = sess.get_mut(&sid).unwrap();
                 if eof {
-                    s.drain();
-                    s.server = None;
+                    // half-close: the client reads what is queued, then end of stream; what it
+                    // still writes can be collected
+                    if let Some(srv) = s.server.as_mut() {
+                        let _ = srv.shutdown().now_or_never();
+                    }
                 } else {
                     s.cancel.cancel();
                 }
@@ -413,13 +523,88 @@ fn run_tcp(n: u64) -> String {
                 return Some("not-installed");
             }
             cancel.cancel();
-            for _ in 0..250 {
+            for _ in 0..2500 {
                 if tables.collect_roa(packet::Family::IPV4).is_empty() {
                     return Some("cleared");
                 }
                 sleep(Duration::from_millis(2)).await;
             }
             Some("stale")
+        });
+        res.push(Term::atom(r.unwrap_or("io-failed")));
+    }
+    Term::list(res).to_string()
+}
+
+/// The body of the gRPC `reset_rpki` (hard reset) around the real `try_connect`/`serve`: the old
+/// session is cancelled, `rpki_drop_all(Arc::new(addr))` is called, a new client connects to the
+/// same address while the old connection is still open.  Afterwards exactly the new session's
+/// VRP must be installed, and nothing once that one is cancelled too.
+fn run_tcp_reset(n: u64) -> String {
+    let rt = tokio::runtime::Builder::new_current_thread().enable_all().build().unwrap();
+    let mut res = vec![Term::atom("tcp-reset")];
+    for _ in 0..n {
+        let r = rt.block_on(async {
+            use tokio::time::{sleep, timeout, Duration};
+            let listener = tokio::net::TcpListener::bind("127.0.0.1:0").await.ok()?;
+            let addr = listener.local_addr().ok()?;
+            let tables: TableHandle = Arc::new(TableManager::new(1));
+            let state = Arc::new(RpkiState::default());
+            let soft = Arc::new(Notify::new());
+            let cancel1 = CancellationToken::new();
+            RpkiClient::try_connect(addr, cancel1.clone(), soft.clone(), state.clone(), tables.clone());
+            let (mut sock1, _) = timeout(Duration::from_secs(5), listener.accept()).await.ok()?.ok()?;
+            let mut q = [0u8; 8];
+            timeout(Duration::from_secs(5), sock1.read_exact(&mut q)).await.ok()?.ok()?;
+            let mut bytes = Vec::new();
+            for p in ["(cr 1 7)", "(p4 1 1 8 24 x0a000000 65001)", "(p4 1 1 16 24 x0a010000 65002)", "(eod 1 7 5)"] {
+                encode_pdu(&Term::parse(p)?, &mut bytes)?;
+            }
+            sock1.write_all(&bytes).await.ok()?;
+            let mut ok = false;
+            for _ in 0..2500 {
+                if tables.collect_roa(packet::Family::IPV4).len() == 2 {
+                    ok = true;
+                    break;
+                }
+                sleep(Duration::from_millis(2)).await;
+            }
+            if !ok {
+                return Some("not-installed");
+            }
+            // reset_rpki, hard
+            cancel1.cancel();
+            let cancel2 = CancellationToken::new();
+            tables.rpki_drop_all(Arc::new(addr.ip()));
+            RpkiClient::try_connect(addr, cancel2.clone(), soft.clone(), state.clone(), tables.clone());
+            let (mut sock2, _) = timeout(Duration::from_secs(5), listener.accept()).await.ok()?.ok()?;
+            timeout(Duration::from_secs(5), sock2.read_exact(&mut q)).await.ok()?.ok()?;
+            let mut bytes = Vec::new();
+            for p in ["(cr 1 8)", "(p4 1 1 16 24 x0a010000 65002)", "(eod 1 8 1)"] {
+                encode_pdu(&Term::parse(p)?, &mut bytes)?;
+            }
+            sock2.write_all(&bytes).await.ok()?;
+            let mut ok = false;
+            for _ in 0..2500 {
+                let roas = tables.collect_roa(packet::Family::IPV4);
+                if roas.len() == 1 && roas[0].1.as_number == 65002 {
+                    ok = true;
+                    break;
+                }
+                sleep(Duration::from_millis(2)).await;
+            }
+            if !ok {
+                return Some(if tables.collect_roa(packet::Family::IPV4).len() > 1 { "stale-or-duplicate" } else { "missing" });
+            }
+            cancel2.cancel();
+            for _ in 0..2500 {
+                if tables.collect_roa(packet::Family::IPV4).is_empty() {
+                    drop(sock1);
+                    return Some("ok");
+                }
+                sleep(Duration::from_millis(2)).await;
+            }
+            Some("stale-end")
         });
         res.push(Term::atom(r.unwrap_or("io-failed")));
     }
@@ -435,12 +620,18 @@ fn verif_main() {
     ) else {
         return; // not invoked by /verif/check
     };
-    if prop != "C13" {
-        return;
+    if std::env::var("VERIF_PANIC").is_err() {
+        std::panic::set_hook(Box::new(|_| {}));
     }
-    std::panic::set_hook(Box::new(|_| {}));
-    sexp::run_lines(&inp, &out, |l| {
-        let l = l.to_string();
-        std::panic::catch_unwind(move || run_case(&l)).unwrap_or_else(|_| "(panic)".into())
-    });
+    match prop.as_str() {
+        "C13" => sexp::run_lines(&inp, &out, |l| {
+            let l = l.to_string();
+            std::panic::catch_unwind(move || run_case(&l)).unwrap_or_else(|_| "(panic)".into())
+        }),
+        "C12" => sexp::run_lines(&inp, &out, |l| {
+            let l = l.to_string();
+            std::panic::catch_unwind(move || c12::run_case(&l)).unwrap_or_else(|_| "(panic)".into())
+        }),
+        _ => {}
+    }
 }
